@@ -537,4 +537,4 @@ MUTANTS = [
 
 
 def run(ctx):
-    ctx.search("events", cases(), quick=1200, thorough=6000)
+    ctx.search("events", cases(), quick=1200, thorough=4500)
